@@ -176,6 +176,12 @@ size_t varintAdaptiveDecode(const uint8_t *src, uint64_t *values,
 /* Read metadata from encoded buffer without full decoding.
  * Useful for inspecting encoding type and size.
  *
+ * FOR and PFOR keep the element count in their own header: for these
+ * originalCount and encodedSize (bytes including the type byte) are exact.
+ * DELTA and TAGGED do not store a count (the decoder is told it), DICT and
+ * BITMAP are not inspected: for these four the count and size are UNKNOWN
+ * and reported as originalCount = 0, encodedSize = 1 (the type byte only).
+ *
  * src: encoded buffer
  * meta: output metadata structure
  * Returns: size of header in bytes
